@@ -4,6 +4,8 @@ package main
 import (
 	"bytes"
 	"context"
+	"crypto/ed25519"
+	crand "crypto/rand"
 	"encoding/json"
 	"fmt"
 	"io"
@@ -12,6 +14,7 @@ import (
 	"net/http"
 	"net/http/httptest"
 	"os"
+	"sort"
 	"strings"
 	"sync"
 	"sync/atomic"
@@ -46,6 +49,8 @@ func main() {
 	dir := run.Scratch()
 	run.Units("isolation", run.Pick(1000, 25000), 0, func(unit int64, r *rand.Rand) { isolation(run, unit, r, dir) })
 	run.Units("identity", run.Pick(60, 600), 0, func(unit int64, r *rand.Rand) { identity(run, unit, r) })
+	run.Floor("assembled_distributor_puts", 60)
+	run.Units("assembled", run.Pick(20, 120), 4, func(unit int64, r *rand.Rand) { assembled(run, unit, r) })
 	run.Units("duplicates", run.Pick(48, 300), 4, func(unit int64, r *rand.Rand) { duplicates(run, unit, r) })
 }
 
@@ -282,6 +287,9 @@ func identity(run *ev.Run, unit int64, r *rand.Rand) {
 	if unit%3 == 1 {
 		missingKey(run, unit, r, u)
 	}
+	if unit%3 == 2 {
+		reconfigured(run, unit, r, u)
+	}
 	m, err := cfg.AsLogMap()
 	if err != nil {
 		run.Violate("aslogmap_refuses_distinct_origins", "AsLogMap refused a configuration without duplicates: "+err.Error(), unit, map[string]any{"yaml": string(yamlFor(u.Logs))})
@@ -414,6 +422,55 @@ func identity(run *ev.Run, unit int64, r *rand.Rand) {
 	}
 }
 
+// reconfigured: one process sees two configurations for the same origin, first with key K1 (its descriptors and
+// witness map are built and dropped), then with key K2 (a rotated key). The witness built from the SECOND
+// configuration must verify that origin under K2 and only K2, and the component descriptor must carry K2.
+func reconfigured(run *ev.Run, unit int64, r *rand.Rand, u *gen.Universe) {
+	l := u.Logs[0]
+	k1, k2 := l.Key, u.Foreign[0]
+	mkcfg := func(k *refnote.SignKey) (omniwitness.LogConfig, string) {
+		o, _ := json.Marshal(l.Origin)
+		kk, _ := json.Marshal(k.Vkey())
+		y := fmt.Sprintf("Logs:\n  - Origin: %s\n    URL: \"http://log.invalid/\"\n    PublicKey: %s\n    Feeder: none\n", o, kk)
+		var cfg omniwitness.LogConfig
+		_ = yaml.Unmarshal([]byte(y), &cfg)
+		return cfg, y
+	}
+	cfg1, _ := mkcfg(k1)
+	if _, err := cfg1.AsLogMap(); err != nil {
+		return
+	}
+	_, _ = config.NewLog(l.Origin, k1.Vkey(), "http://log.invalid/")
+	cfg2, y2 := mkcfg(k2)
+	m2, err := cfg2.AsLogMap()
+	if err != nil {
+		run.Violate("second_configuration_refused", "a configuration giving a known origin a rotated key is refused: "+err.Error(), unit, map[string]any{"yaml": y2})
+		return
+	}
+	run.Count("evaluations")
+	run.Count("reconfigured_origins")
+	cl2, err := config.NewLog(l.Origin, k2.Vkey(), "http://log.invalid/")
+	if err == nil && cl2.Verifier.KeyHash() != refnote.KeyHash(k2.Name, 1, k2.Pub) {
+		run.Violate("descriptor_keeps_an_earlier_configurations_key", fmt.Sprintf("config.NewLog for origin %q with the rotated key returns a descriptor whose verifier is not that key", l.Origin), unit, map[string]any{"yaml": y2})
+	}
+	keys, _ := wit.NewWitKeys(r, []bool{false, true}, true)
+	wit.EnsureMetrics(nil)
+	w, err := witness.New(witness.Opts{Persistence: inmemory.NewPersistence(), Signers: keys.Signers, KnownLogs: m2})
+	if err != nil {
+		run.Inconclusive(err.Error())
+		return
+	}
+	text := refnote.Body(l.Origin, 3, l.Root(0, 3))
+	if _, err := w.Update(context.Background(), l.ID, 0, refnote.Assemble(text, k1.SigLine(text)), nil); err == nil {
+		run.Violate("witness_verifies_under_an_earlier_configurations_key", fmt.Sprintf("the witness built from a configuration that gives origin %q key K2 cosigned a checkpoint signed by K1, the key an earlier configuration in this process had given it", l.Origin), unit, map[string]any{"yaml": y2})
+		return
+	}
+	if _, err := w.Update(context.Background(), l.ID, 0, refnote.Assemble(text, k2.SigLine(text)), nil); err != nil {
+		run.Violate("witness_refuses_the_configured_key", fmt.Sprintf("the witness built from a configuration that gives origin %q key K2 refuses a checkpoint signed by K2: %v", l.Origin, err), unit, map[string]any{"yaml": y2})
+	}
+	run.Distinct("nontrivial", "id/reconfigured")
+}
+
 // missingKey: a configuration whose second entry has no PublicKey (omitted, or the field name misspelt so
 // that the decoder ignores it). Either the configuration is refused, or - if a witness can be built from it -
 // a checkpoint with that entry's origin signed by ANOTHER entry's key must be refused: no key was configured
@@ -518,6 +575,130 @@ func (c *countingListener) Accept() (net.Conn, error) {
 }
 
 var mainMu sync.Mutex // omniwitness.ConfigLogs is a process-wide variable
+
+// assembled: omniwitness.Main with BOTH a bastion and a REST distributor configured (they are handed the same
+// log list), over a store that already holds a checkpoint for every log, configured in an order that is not
+// sorted. Every PUT the distributor makes must name, in its path, the ID of the origin its body carries.
+func assembled(run *ev.Run, unit int64, r *rand.Rand) {
+	u := gen.NewUniverse(r, gen.Opts{NLogs: 3 + r.IntN(4), MaxSize: 8, Branches: 1, ShareKeys: true})
+	seen := map[string]bool{}
+	for _, l := range u.Logs {
+		for {
+			l.Origin, _ = drawOrigin(r)
+			if !seen[l.Origin] {
+				break
+			}
+		}
+		seen[l.Origin] = true
+		l.ID = refnote.LogID(l.Origin)
+	}
+	// descending by origin: any component that sorts the shared list reorders it
+	sort.Slice(u.Logs, func(i, j int) bool { return u.Logs[i].Origin > u.Logs[j].Origin })
+	keys, _ := wit.NewWitKeys(r, []bool{false, true}, true)
+	witV := keys.Signers[1].(interface{ Verifier() note.Verifier }).Verifier()
+	wit.EnsureMetrics(nil)
+	var cfg omniwitness.LogConfig
+	if err := yaml.Unmarshal(yamlFor(u.Logs), &cfg); err != nil {
+		run.Inconclusive(err.Error())
+		return
+	}
+	m, err := cfg.AsLogMap()
+	if err != nil {
+		run.Inconclusive(err.Error())
+		return
+	}
+	pers := inmemory.NewPersistence()
+	w0, err := witness.New(witness.Opts{Persistence: pers, Signers: keys.Signers, KnownLogs: m})
+	if err != nil {
+		run.Inconclusive(err.Error())
+		return
+	}
+	for _, l := range u.Logs {
+		if _, err := w0.Update(context.Background(), l.ID, 0, l.Honest(0, 1+r.Uint64N(7)), nil); err != nil {
+			run.Inconclusive("could not pre-load the store: " + err.Error())
+			return
+		}
+	}
+	ln, err := net.Listen("tcp", "127.0.0.1:0")
+	if err != nil {
+		run.Inconclusive(err.Error())
+		return
+	}
+	defer ln.Close()
+	// a listener nobody accepts on stands for the bastion: the feeder's set-up runs at once, its first
+	// connection attempt only on its reconnect ticker, after this unit is over
+	bl, err := net.Listen("tcp", "127.0.0.1:0")
+	if err != nil {
+		run.Inconclusive(err.Error())
+		return
+	}
+	defer bl.Close()
+	_, bkey, _ := ed25519.GenerateKey(crand.Reader)
+	type put struct{ path, body string }
+	var mu sync.Mutex
+	var puts []put
+	client := &http.Client{Transport: rtFunc(func(q *http.Request) (*http.Response, error) {
+		var b []byte
+		if q.Body != nil {
+			b, _ = io.ReadAll(q.Body)
+		}
+		mu.Lock()
+		puts = append(puts, put{q.URL.EscapedPath(), string(b)})
+		mu.Unlock()
+		return &http.Response{StatusCode: 200, Body: io.NopCloser(strings.NewReader("")), Request: q}, nil
+	})}
+	mainMu.Lock()
+	saved := omniwitness.ConfigLogs
+	omniwitness.ConfigLogs = yamlFor(u.Logs)
+	ctx, cancel := context.WithCancel(context.Background())
+	done := make(chan error, 1)
+	go func() {
+		done <- omniwitness.Main(ctx, omniwitness.OperatorConfig{WitnessKeys: keys.Signers, WitnessVerifier: witV,
+			BastionAddr: bl.Addr().String(), BastionKey: bkey, BastionRateLimit: 10,
+			RestDistributorBaseURL: "http://distributor.invalid", DistributeInterval: 60 * time.Millisecond}, pers, ln, client)
+	}()
+	deadline := time.Now().Add(4 * time.Second)
+	for time.Now().Before(deadline) {
+		mu.Lock()
+		n := len(puts)
+		mu.Unlock()
+		if n >= 3*len(u.Logs) {
+			break
+		}
+		time.Sleep(20 * time.Millisecond)
+	}
+	cancel()
+	select {
+	case <-done:
+	case <-time.After(20 * time.Second):
+		run.Inconclusive("Main did not return after cancel (watchdog)")
+	}
+	omniwitness.ConfigLogs = saved
+	mainMu.Unlock()
+	mu.Lock()
+	defer mu.Unlock()
+	run.Count("evaluations")
+	run.Count("assembled_services")
+	run.Add("assembled_distributor_puts", int64(len(puts)))
+	run.Distinct("nontrivial", fmt.Sprintf("assembled/logs=%d", len(u.Logs)))
+	for _, p := range puts {
+		parts := strings.Split(p.path, "/")
+		first, _, _ := strings.Cut(p.body, "\n")
+		if len(parts) <= 4 {
+			continue
+		}
+		if parts[4] != refnote.LogID(first) {
+			run.Violate("distributed_under_another_logs_id", fmt.Sprintf("with a bastion and a distributor configured, a checkpoint of origin %q was PUT under log ID %q; that origin's ID is %q", first, parts[4], refnote.LogID(first)), unit, map[string]any{"path": p.path, "configured_order": func() []string {
+				var o []string
+				for _, l := range u.Logs {
+					o = append(o, l.Origin)
+				}
+				return o
+			}()})
+			break
+		}
+	}
+}
 
 func duplicates(run *ev.Run, unit int64, r *rand.Rand) {
 	u := gen.NewUniverse(r, gen.Opts{NLogs: 2 + r.IntN(4), MaxSize: 8, Branches: 1, ShareKeys: true})
